@@ -82,6 +82,7 @@ class Walker:
             which = ('start' if rr[0] != sr[0] else '') + ('end' if rr[1] != sr[1] else '')
             if not self.semicolon_quirk(rr, sr, kind):
                 self.bad('range_differs:%s:%s' % (kind, which), path=path, reference=rr, got=sr,
+                         tail=self.data[sr[1]:rr[1]].decode('utf-8', 'replace')[:300] if rr[0] == sr[0] and sr[1] < rr[1] else None,
                          ref_text=self.data[rr[0]:rr[1]].decode('utf-8', 'replace')[:120], got_text=self.data[sr[0]:sr[1]].decode('utf-8', 'replace')[:120])
         if sr is not None:
             self.by_kind.setdefault(kind, []).append((sr, r, s))
@@ -230,7 +231,9 @@ class C02(ProgramProperty):
         sig = f.signature
         d = f.detail
         t = case['text']
-        if 'C02-F1' in ids and sig == 'range_differs:NamedExpr:end' and d['got'][1] < d['reference'][1] and re.fullmatch(r'[\s)\\#\w \'"]*', d['ref_text'][len(d['got_text']):] or ''):
+        if 'C02-F1' in ids and sig == 'range_differs:NamedExpr:end' and d.get('tail') and \
+                re.fullmatch(r'(?:[\s)]|\\[\r\n]+|#[^\r\n]*)*', d['tail']) and ')' in d['tail']:
+            # the missing part consists of closing parentheses (with layout between them) only
             return 'C02-F1'
         if 'C02-F2' in ids and sig.startswith('range_differs:GeneratorExp') and 'Call.args[0]' in d['path']:
             return 'C02-F2'
